@@ -44,6 +44,7 @@ structure S where
   evs : List Ev := []                    -- reversed
   bad : Option String := none            -- first diff of this execution (reported at `end`)
   blockedSeen : List String := []
+  ctxParked : Option String := none     -- a writer whose context was already done was seen parked on the queue
   failAt : Nat := 0                      -- 1-based index of the transport write call that fails (0 = none)
   nWrites : Nat := 0
   failNext : Bool := false               -- the harness announced that the next transport write fails
@@ -374,6 +375,9 @@ def specCheck (prop : String) (s : S) (endStatus : String) : Option String :=
   let c8 := if !s.st.untilW && !s.st.sync then
       firstSome s.blockedSeen (fun b => if (b.splitOn "asyncWrite").length > 1 then some s!"non-blocking mode: writer parked waiting for queue space ({b})" else none)
     else none
+  -- C18: cancellation is honoured while waiting for queue space
+  let c9 := s.ctxParked.map (fun b => s!"a writer whose context is already cancelled is parked waiting for queue space ({b})")
+  c9.orElse fun _ =>
   c1.orElse (fun _ => c2.orElse (fun _ => c3.orElse (fun _ => c4.orElse (fun _ => c5.orElse (fun _ => c6.orElse (fun _ => c6b.orElse (fun _ => c6c.orElse (fun _ => c6d.orElse (fun _ => c7.orElse (fun _ => c8))))))))))
 
 def handle (prop : String) (s : S) : List String → S × String
@@ -384,7 +388,16 @@ def handle (prop : String) (s : S) : List String → S × String
   | "step" :: tid :: label :: case :: events =>
     let blocked := events.filter (·.startsWith "blocked=")
     let events := events.filter (fun e => !e.startsWith "blocked=")
-    let s := { s with blockedSeen := s.blockedSeen ++ (blocked.flatMap (fun b => ((b.drop 8).toString.splitOn ","))) }
+    let bl := blocked.flatMap (fun b => ((b.drop 8).toString.splitOn ","))
+    let s := { s with blockedSeen := s.blockedSeen ++ bl }
+    -- a select with a ready ctx.Done() case cannot block: a caller whose context is already done must not be parked on the queue
+    let s := bl.foldl (fun s b =>
+      match b.splitOn "@" with
+      | [tn, point] =>
+        let t := getThr s tn
+        let cancelled := t.ctx == "done" || (t.ctx.startsWith "k" && (s.ctxs[((t.ctx.drop 1).toString.toNat?).getD 9]?).getD false)
+        if cancelled && (point.splitOn "asyncWrite").length > 1 && s.ctxParked.isNone then { s with ctxParked := some b } else s
+      | _ => s) s
     (doStep s tid label (case.toInt?.getD (-2)) events, "ok")
   | ["end", status, parked] =>
     let spec := specCheck prop s status
